@@ -320,4 +320,75 @@ example :
     cssClamp 80 0 (.fin 50) = 50 ∧ cssClamp 80 60 (.fin 50) = 60 ∧ cssClamp 80 0 .inf = 80 := by
   decide +kernel
 
+/-! ## the decorated `block_level_width` as one closed formula (the reference `css_used` of the judges) -/
+
+/-- (b)(c) **The decorated `block_level_width` is CSS 2.1 §10.3.3 solved for the §10.4 width, for every input**
+(the reference `css_used` of the harness's judges `clause_width` / `doc_oracle`, now a theorem of the model):
+with `t` the width of the first, tentative, pass, the result is that pass itself when `t` already satisfies
+`min-width` / `max-width`, and otherwise (or as well) **one** plain pass of `block_level_width` from the computed margins, the
+original `position_x` and the width `cssClamp t min max` (`max-width` first, `min-width` last). -/
+theorem blw_minmax_css (cbw : Rat) (dir : Dir) (b r : ABox)
+    (h : handleMinMaxWidth (fun b => .ok (blwCore cbw dir b)) b = .ok r) :
+    ∃ t, (blwCore cbw dir b).w = some t ∧
+      ((cssClamp t b.minW b.maxW = t ∧ r = blwCore cbw dir b) ∨
+       r = pass cbw dir b (cssClamp t b.minW b.maxW) b.posX) := by
+  obtain ⟨t, ht, hcase⟩ := minmax_reentry cbw dir b r h
+  refine ⟨t, ht, ?_⟩
+  rcases hcase with ⟨hlt, hmin, e⟩ | ⟨m, hm, hgt, hmin, e⟩ | ⟨hlt, hmin, e⟩ | ⟨m, hm, hgt, hmin, e⟩
+  · left
+    refine ⟨?_, e⟩
+    unfold cssClamp
+    cases hmx : b.maxW with
+    | fin m =>
+      rw [hmx] at hlt
+      have : ¬ t > m := by simpa [Ext.ltRat] using hlt
+      simp only [if_neg this, if_neg hmin]
+    | inf => simp only [if_neg hmin]
+    | ninf => rw [hmx] at hlt; simp [Ext.ltRat] at hlt
+    | nan => simp only [if_neg hmin]
+  · right
+    have hc : cssClamp t b.minW b.maxW = m := by
+      unfold cssClamp; rw [hm]; simp only [if_pos hgt, if_neg hmin]
+    rw [hc]
+    exact e
+  · right
+    have hc : cssClamp t b.minW b.maxW = b.minW := by
+      unfold cssClamp
+      cases hmx : b.maxW with
+      | fin m =>
+        rw [hmx] at hlt
+        have : ¬ t > m := by simpa [Ext.ltRat] using hlt
+        simp only [if_neg this, if_pos hmin]
+      | inf => simp only [if_pos hmin]
+      | ninf => rw [hmx] at hlt; simp [Ext.ltRat] at hlt
+      | nan => simp only [if_pos hmin]
+    rw [hc]
+    exact e
+  · right
+    have hc : cssClamp t b.minW b.maxW = b.minW := by
+      unfold cssClamp; rw [hm]; simp only [if_pos hgt, if_pos hmin]
+    rw [hc]
+    exact e
+
+/-- The used width after the decorated `block_level_width` **is** `cssClamp` of the tentative width — clause (c) as
+an equation, for every input on which the wrapper succeeds. -/
+theorem blw_minmax_width_css (cbw : Rat) (dir : Dir) (b r : ABox)
+    (h : handleMinMaxWidth (fun b => .ok (blwCore cbw dir b)) b = .ok r) :
+    ∃ t, (blwCore cbw dir b).w = some t ∧ r.w = some (cssClamp t b.minW b.maxW) := by
+  obtain ⟨t, ht, hcase⟩ := blw_minmax_css cbw dir b r h
+  refine ⟨t, ht, ?_⟩
+  rcases hcase with ⟨hc, e⟩ | e
+  · rw [e, hc]; exact ht
+  · rw [e]; exact (specified_kept cbw dir _).1 _ rfl
+
+/-- `width: 200px; max-width: 50px; margin: 0`. -/
+def exClamped : ABox :=
+  { ml := some 0, mr := some 0, pl := 0, pr := 0, bl := 0, br := 0, w := some 200, minW := 0, maxW := .fin 50,
+    posX := 0, isColumn := false }
+
+/-- Non-vacuity: in a 100px rtl containing block the tentative width 200 is clamped to 50; one pass from x = 0
+puts the box at x = 50. -/
+example : cssClamp 200 0 (.fin 50) = 50 ∧ (pass 100 .rtl exClamped 50 0).posX = 50 := by
+  decide +kernel
+
 end Wp.C05Shrink
